@@ -154,7 +154,8 @@ func New(op OpCode) Type {
 // srcAddr specifies the source address, or immediate value for instruction
 // encoded integers.
 func EncodeSrc(srcsel int, src uint64, srcAddr int) Type {
-	if srcAddr <= -(1<<SrcChanWidth) || srcAddr >= (1<<SrcChanWidth) {
+	// the decoder sign extends the channel, so only SrcChanWidth-1 bits of magnitude fit
+	if srcAddr < -(1<<(SrcChanWidth-1)) || srcAddr >= (1<<(SrcChanWidth-1)) {
 		panic("srcAddr out of range")
 	}
 	addr := uint64(srcAddr)
